@@ -952,4 +952,122 @@ m('c17-twin-clip-minmax', 'C17', 'neutral', APFL, APS, "lambda x: jnp.clip(x, 0,
 m('c17-twin-dict-spread', 'C17', 'neutral', APFL, 'adaptive_personalized_federated_learning.apply',
   "client_states = dict(server_state.client_states)", "client_states = {**server_state.client_states}")
 
+# ---------------------------------------------------------------- C13
+GS = 'UniformGetClientSampler'
+SS = 'UniformShuffledClientSampler'
+m('c13-replace-true', 'C13', 'break', SAMP, GS + '.sample',
+  "random_state.choice(np.array(self._client_ids, dtype=object), size=self._num_clients, replace=False)",
+  "random_state.choice(np.array(self._client_ids, dtype=object), size=self._num_clients)", mode='expr', expect='R-CHOICE')
+m('c13-no-object-dtype', 'C13', 'break', SAMP, GS + '.sample', "np.array(self._client_ids, dtype=object)",
+  "np.array(self._client_ids)", mode='expr', expect='R-CHOICE')
+m('c13-stateful-rng', 'C13', 'break', SAMP, GS + '.sample',
+  "random_state = get_pseudo_random_state(self._seed, self._round_num)",
+  "random_state = self._rs = getattr(self, '_rs', None) or get_pseudo_random_state(self._seed, self._round_num)",
+  expect='R-')
+m('c13-seed-only', 'C13', 'break', SAMP, GS + '.sample', "random_state = get_pseudo_random_state(self._seed, self._round_num)",
+  "random_state = get_pseudo_random_state(self._seed, 0)", expect='R-SEED')
+m('c13-global-rng', 'C13', 'break', SAMP, GS + '.sample', "random_state = get_pseudo_random_state(self._seed, self._round_num)",
+  "random_state = np.random", expect='R-')
+m('c13-increment-first', 'C13', 'break', SAMP, GS + '.sample', "clients = []", "clients = []\nself._round_num += 1",
+  expect='R-PURE.round')
+m('c13-no-increment', 'C13', 'break', SAMP, GS + '.sample', "self._round_num += 1", "pass", expect='R-PURE.round')
+m('c13-set-round-off-by-one', 'C13', 'break', SAMP, GS + '.set_round_num', "self._round_num = round_num",
+  "self._round_num = round_num + 1", expect='R-PURE.round')
+m('c13-keys-from-seed', 'C13', 'break', SAMP, GS + '.sample', "jax.random.PRNGKey(self._round_num)", "jax.random.PRNGKey(self._seed)",
+  mode='expr', expect='R-SEED.keys')
+m('c13-same-key-all', 'C13', 'break', SAMP, GS + '.sample', "clients.append((client_id, client_dataset, client_rngs[i]))",
+  "clients.append((client_id, client_dataset, client_rngs[0]))", expect='R-')
+m('c13-remove-sampled', 'C13', 'break', SAMP, GS + '.sample', "clients = []",
+  "clients = []\nself._client_ids = self._client_ids[1:] + self._client_ids[:1]", expect='R-PURE')
+m('c13-prs-global', 'C13', 'break', SAMP, 'get_pseudo_random_state',
+  "mlcg_start = np.random.RandomState(seed).randint(1, mlcg_modulus - 1)", "mlcg_start = np.random.randint(1, mlcg_modulus - 1)",
+  expect='R-SEED')
+m('c13-prs-ignores-round', 'C13', 'break', SAMP, 'get_pseudo_random_state',
+  "return np.random.RandomState(pow(mlcg_multiplier, round_num, mlcg_modulus) * mlcg_start % mlcg_modulus)",
+  "return np.random.RandomState(mlcg_start % mlcg_modulus)", expect='R-SEED')
+m('c13-stream-no-skip', 'C13', 'break', SAMP, SS + '.__init__',
+  "for _ in range(self._round_num):\n  for _ in range(self._num_clients):\n    next(self._shuffled_clients_iter)", "pass",
+  expect='R-STREAM')
+m('c13-stream-skip-rounds-only', 'C13', 'break', SAMP, SS + '.__init__',
+  "for _ in range(self._round_num):\n  for _ in range(self._num_clients):\n    next(self._shuffled_clients_iter)",
+  "for _ in range(self._round_num):\n  next(self._shuffled_clients_iter)", expect='R-STREAM')
+m('c13-other-dataset', 'C13', 'break', SAMP, GS + '.sample', "self._federated_data.get_clients(client_ids)",
+  "self._federated_data.get_clients(self._client_ids[:self._num_clients])", mode='expr', expect='R-CHOICE')
+m('c13-twin-key', 'C13', 'neutral', SAMP, GS + '.sample', "clients = []", "clients = []\nnum = self._num_clients")
+
+# ---------------------------------------------------------------- C03
+PV = 'PaddedBatchView.__iter__'
+BV = 'BatchView.__iter__'
+m('c03-padded-overlap', 'C03', 'break', CD, PV, "stop = start + self._batch_size", "stop = start + self._batch_size + 1",
+  expect='R-SIB.view')
+m('c03-padded-range-step', 'C03', 'break', CD, PV, "range(0, self._data_size, self._batch_size)",
+  "range(0, self._data_size - 1, self._batch_size)", mode='expr', expect='R-SIB.view')
+m('c03-padded-full-strict', 'C03', 'break', CD, PV, "stop <= self._data_size", "stop < self._data_size", mode='expr',
+  expect='R-SIB.view')
+m('c03-padded-pad-to-batch', 'C03', 'break', CD, PV, "yield pad_examples(processed, self._final_batch_size)",
+  "yield pad_examples(processed, self._batch_size)", expect='R-SIB.view')
+m('c03-batch-drop-full', 'C03', 'break', CD, BV, "not self._drop_remainder or stop <= self._data_size",
+  "not self._drop_remainder or stop < self._data_size", mode='expr', expect='R-SIB.view')
+m('c03-batch-skip-preprocess', 'C03', 'break', CD, BV, "processed = self._client_dataset.preprocessor(sliced)", "processed = sliced",
+  expect='R-SIB.view')
+m('c03-pad-mask-suffix', 'C03', 'break', CD, 'pad_examples', "result = {EXAMPLE_MASK_KEY: np.arange(size) < current_size}",
+  "result = {EXAMPLE_MASK_KEY: np.arange(size) >= size - current_size}", expect='R-PAIR.pad')
+m('c03-pad-mask-le', 'C03', 'break', CD, 'pad_examples', "np.arange(size) < current_size", "np.arange(size) <= current_size",
+  mode='expr', expect='R-PAIR.pad')
+m('c03-pad-dtype', 'C03', 'break', CD, 'pad_examples', "padded = np.zeros((size,) + v.shape[1:], v.dtype)",
+  "padded = np.zeros((size,) + v.shape[1:])", expect='R-PAIR.pad')
+m('c03-pad-copy-bound', 'C03', 'break', CD, 'pad_examples', "padded[:current_size] = v", "padded[:current_size - 1] = v[:-1]",
+  expect='R-PAIR.pad')
+m('c03-pad-no-size-check', 'C03', 'break', CD, 'pad_examples',
+  "if current_size > size:\n  raise ValueError(f'Cannot pad {current_size} examples to size {size}')", "pass", expect='R-PAIR.pad')
+m('c03-bucket-gt', 'C03', 'break', CD, '_pick_final_batch_size', "low >= final_batch_size", "low > final_batch_size", mode='expr',
+  expect='R-BUCKET')
+m('c03-bucket-count', 'C03', 'break', CD, '_pick_final_batch_size', "n < num_batch_size_buckets", "n <= num_batch_size_buckets",
+  mode='expr', expect='R-BUCKET')
+m('c03-bucket-zero-rem', 'C03', 'break', CD, '_pick_final_batch_size', "if final_batch_size == 0:\n  return batch_size", "pass",
+  expect='R-BUCKET')
+m('c03-iter-mutates-dataset', 'C03', 'break', CD, PV, "processed = self._client_dataset.preprocessor(sliced)",
+  "processed = self._client_dataset.preprocessor(sliced)\nself._data_size -= 0", expect='R-PURE')
+m('c03-slice-inplace', 'C03', 'break', CD, 'slice_examples', "return {k: v[index] for k, v in examples.items()}",
+  "for k in examples:\n  examples[k] = examples[k][index]\nreturn examples", expect='R-')
+m('c03-preproc-no-copy', 'C03', 'break', CD, 'BatchPreprocessor.__call__', "out = dict(examples)", "out = examples",
+  expect='R-PURE.copy')
+m('c03-twin-zeros-star', 'C03', 'neutral', CD, 'pad_examples', "padded = np.zeros((size,) + v.shape[1:], v.dtype)",
+  "padded = np.zeros((size, *v.shape[1:]), dtype=v.dtype)")
+m('c03-twin-full-ge', 'C03', 'neutral', CD, PV, "stop <= self._data_size", "self._data_size >= stop", mode='expr')
+
+# ---------------------------------------------------------------- C04
+SV = 'ShuffleRepeatBatchView.__iter__'
+SI = 'ShuffleRepeatBatchView.__init__'
+m('c04-global-rng', 'C04', 'break', CD, SV, "rng = np.random.RandomState(self._seed)", "rng = np.random", expect='R-SEED')
+m('c04-seed-dropped', 'C04', 'break', CD, SV, "rng = np.random.RandomState(self._seed)", "rng = np.random.RandomState()",
+  expect='R-SEED')
+m('c04-rng-on-self', 'C04', 'break', CD, SV, "rng = np.random.RandomState(self._seed)",
+  "rng = self._rng = getattr(self, '_rng', None) or np.random.RandomState(self._seed)", expect='R-')
+m('c04-global-shuffle', 'C04', 'break', CD, SV, "rng.shuffle(buf)", "np.random.shuffle(buf)", expect='R-')
+m('c04-reshuffle-mid-pass', 'C04', 'break', CD, SV,
+  "if available == 0:\n  if not self._skip_shuffle:\n    rng.shuffle(buf)\n  i = 0\n  available = buf_size",
+  "if available < desired_size - filled:\n  if not self._skip_shuffle:\n    rng.shuffle(buf)\n  i = 0\n  available = buf_size",
+  expect='R-PERM')
+m('c04-no-cursor-reset', 'C04', 'break', CD, SV, "i = 0", "pass", expect='R-PERM')
+m('c04-with-replacement', 'C04', 'break', CD, SV, "indices[filled:filled + used] = buf[i:i + used]",
+  "indices[filled:filled + used] = rng.randint(buf_size, size=used)", expect='R-PERM')
+m('c04-buf-overwritten', 'C04', 'break', CD, SV, "i += used", "i += used\nbuf[0] = buf[-1]", expect='R-PERM')
+m('c04-cursor-not-advanced', 'C04', 'break', CD, SV, "i += used", "i += 1", expect='R-PERM.window')
+m('c04-skip-shuffle-ignored', 'C04', 'break', CD, SV, "if not self._skip_shuffle:\n  rng.shuffle(buf)", "rng.shuffle(buf)",
+  expect='R-PERM.reshuffle')
+m('c04-first-pass-unshuffled', 'C04', 'break', CD, SV, "i = buf_size", "i = 0", expect='R-PERM.window')
+m('c04-short-batch', 'C04', 'break', CD, SV, "while filled < desired_size:", "while filled < desired_size - 1:") if False else None
+m('c04-batch-size-minus-one', 'C04', 'break', CD, SV, "indices = np.zeros((self._batch_size,), dtype=np.int32)",
+  "indices = np.zeros((max(self._batch_size - 1, 1),), dtype=np.int32)", expect='R-SIZE')
+m('c04-steps-floor-always', 'C04', 'break', CD, SI,
+  "self._num_steps = (self._data_size * hparams.num_epochs + hparams.batch_size - 1) // hparams.batch_size",
+  "self._num_steps = self._data_size * hparams.num_epochs // hparams.batch_size", expect='R-SIZE.steps')
+m('c04-steps-max', 'C04', 'break', CD, SI, "self._num_steps = min(hparams.num_steps, self._num_steps)",
+  "self._num_steps = max(hparams.num_steps, self._num_steps)", expect='R-SIZE.steps')
+m('c04-one-more-step', 'C04', 'break', CD, SV, "num_steps < desired_num_steps", "num_steps <= desired_num_steps", mode='expr',
+  expect='R-SIZE.steps')
+m('c04-twin-rename-cursor', 'C04', 'neutral', CD, SV, "i = buf_size", "i = buf_size\ncursor_start = i")
+m('c04-twin-len', 'C04', 'neutral', CD, SV, "buf_size = buf.shape[0]", "buf_size = len(buf)")
+
 _E[:] = [e for e in _E if e is not None]
